@@ -390,6 +390,20 @@ class DefGen:
         conds = [self.condition("%s.c%d" % (label, i)) for i in range(nc)]
         if self.profile != "benign" and f.flag(label + ".dupcond", 1, 8):
             conds.append(conds[0])       # the very same condition twice, the repeat in last position
+        if self.profile != "benign" and f.flag(label + ".twin", 1, 8):
+            # a condition together with the negation of the identical condition
+            c = conds[0]
+            twin = None
+            if isinstance(c[0], str) and c[0] in ("exists", "notexists"):
+                twin = (("notexists" if c[0] == "exists" else "exists"),) + tuple(c[1:])
+            else:
+                for j, x in enumerate(c):
+                    if isinstance(x, str) and x in (":is", ":contains", ":matches", ":notis", ":notcontains", ":notmatches"):
+                        flipped = (":not" + x[1:]) if not x.startswith(":not") else (":" + x[4:])
+                        twin = tuple(c[:j]) + (flipped,) + tuple(c[j + 1:])
+                        break
+            if twin is not None:
+                conds.insert(f.int(label + ".twinpos", len(conds) + 1), twin)
         acts = [self.action("%s.a%d" % (label, i)) for i in range(na)]
         mt = ["anyof", "allof"][f.int(label + ".matchtype", 2)]
         return conds, acts, mt
